@@ -79,6 +79,7 @@ def compare_with_machine(ctx, name, cases, results, what='engine vs machine defi
             sig = {'kind': 'engine-differs', 'engine': c['engine'], 'w': c['w'],
                    'loop': r.get('storage'), 'obs_cause': r.get('cause')}
             sig.update(classify(c, r))
+            sig['machine_fault_at_2_64'] = 'o_fault := 18446744073709551616' in model
             ctx.violation(sig, f'{what}: {c["engine"]} engine (w={c["w"]}) observed cause={r.get("cause")} '
                           f'ops={r.get("ops")} fault={r.get("fault")} out={r.get("out")}; machine definition gives {model[-300:]}',
                           {'case': c, 'observed': r, 'machine_definition': model,
